@@ -502,8 +502,10 @@ def plan_C12(ctx):
                      [mk("urihdrs", flags=f, pcap=p) for f in (128, 136) for p in (0, 1, 2, 4)] + [mk("tokparam", flags=f) for f in (0, 8, 72)],
                      atoms=ATOMS["tokparam_deep"], maxlen=5 if ctx.quick else 7, extra=dict(probes=pp)), "URI list reset histories")
     sp = [B(" 12 \r\nX"), B(" 1 ACK\r\nX"), B("a@b\r\nX"), B("9")]
-    ctx.explore(dict(mode="reset", cfgs=[mk("uint"), mk("clen"), mk("cseq"), mk("callid"), mk("fline")], atoms=ATOMS["cseq"], maxlen=5 if ctx.quick else 7,
-                     extra=dict(probes=sp + [B("INVITE sip:a SIP/2.0\r\n"), B("SIP/2.0 200 OK\r\n")])), "scalar reset histories")
+    ctx.explore(dict(mode="reset", cfgs=[mk("uint"), mk("clen"), mk("cseq"), mk("callid")], atoms=ATOMS["cseq"], maxlen=5 if ctx.quick else 7,
+                     extra=dict(probes=sp)), "scalar reset histories")
+    flp = [B("INVITE sip:a SIP/2.0\r\n"), B("SIP/2.0 200 OK\r\n"), B("SIP/2.0 404 \n"), B("X y z\r"), B("SIP/2.0 20")]
+    ctx.explore(dict(mode="reset", cfgs=[mk("fline")], atoms=ATOMS["fline_long"], maxlen=3 if ctx.quick else 4, extra=dict(probes=flp)), "first line reset histories")
     cleanup(ctx)
     ctx.nontrivial = sum(e["stats"].get("Suspensions", 0) for e in ctx.extra.get("explorations", []))
     ctx.need("histories abandoned while suspended", ctx.nontrivial, 1000)
@@ -731,4 +733,19 @@ def plan_C20(ctx):
     ctx.nontrivial = ctx.records
     ctx.need("strings executed on the real IPv4 functions", ctx.records, 100000)
 
-PLANS = dict(C08=plan_C08, C20=plan_C20, C05=plan_C05, C19=plan_C19, C09=plan_C09, C14=plan_C14, C18=plan_C18, selftest=selftest, C10=plan_C10, C16=plan_C16, C01=plan_C01, C02=plan_C02, C03=plan_C03, C04=plan_C04, C06=plan_C06, C07=plan_C07, C11=plan_C11, C12=plan_C12, C13=plan_C13)
+def plan_C17(ctx):
+    ctx.extra["rule"] = ("GenParams.tla: lists of 0..3 items name[=value] (missing / empty / token / quoted with escapes and embedded separators), WS / "
+        "HT / folds around names, '=' and separators, empty items, ';' and '&' lists, the five endings (end of input, end of header, ',' / '?' "
+        "terminator, SP + token), with the intended All / Name / Val spans, counts, URI-parameter type flags, verdict and offset by "
+        "construction; a 256-byte sweep at 9 positions in 3 modes states which bytes are in the documented character set. Through "
+        "ParseTokenParam (9 flag sets), ParseAllURIParams (capacities 0 1 2 8), ParseAllURIHdrs, URIParamResolve. The parsers are also "
+        "transcribed (TokParam.tla, 46 model-checked configurations, drift 0).")
+    slices = ["one_up", "one_uh", "one_tp", "two_up", "two_uh", "two_tp", "names_up", "names_uh", "names_tp", "names2_up", "zero_tp", "sweep", "resolve",
+              "viol_zero_up", "viol_zero_uh", "viol_septerm_up", "viol_septerm_tp"]
+    if not ctx.quick: slices += ["three_up", "three_uh", "three_tp", "gaps_up", "gaps_uh", "gaps_tp"]
+    for sl in slices:
+        ctx.tlc("MC_GenParams", "MC_GenParams_%s.cfg" % sl, workers=8, min_records=40)
+    ctx.nontrivial = ctx.records
+    ctx.need("generated parameter lists executed on the real parsers", ctx.records, 100000)
+
+PLANS = dict(C17=plan_C17, C08=plan_C08, C20=plan_C20, C05=plan_C05, C19=plan_C19, C09=plan_C09, C14=plan_C14, C18=plan_C18, selftest=selftest, C10=plan_C10, C16=plan_C16, C01=plan_C01, C02=plan_C02, C03=plan_C03, C04=plan_C04, C06=plan_C06, C07=plan_C07, C11=plan_C11, C12=plan_C12, C13=plan_C13)
